@@ -3,6 +3,7 @@ package wv
 import (
 	"fmt"
 	"math"
+	"sync/atomic"
 
 	"go.uber.org/thriftrw/protocol/stream"
 	"go.uber.org/thriftrw/wire"
@@ -78,6 +79,8 @@ func (v *V) WriteStream(w stream.Writer) error {
 
 // ReadStream is a schema-less reader built only from stream.Reader primitives
 // (what generated Decode methods are made of).
+var readAlt atomic.Uint32
+
 func ReadStream(r stream.Reader, t byte) (*V, error) {
 	switch t {
 	case TBool:
@@ -107,6 +110,12 @@ func ReadStream(r stream.Reader, t byte) (*V, error) {
 	case TBinary:
 		// keep the returned slice as generated code does (no defensive copy): a reader that
 		// hands out aliased storage is then visible when the value is dumped at the end
+		// every other read goes through ReadString (the call generated code makes for string
+		// fields, map keys and elements): same bytes on the wire, a separate code path
+		if readAlt.Add(1)%2 == 0 {
+			s, err := r.ReadString()
+			return &V{T: TBinary, Bin: []byte(s)}, err
+		}
 		x, err := r.ReadBinary()
 		return &V{T: TBinary, Bin: x}, err
 	case TStruct:
